@@ -365,3 +365,79 @@ Proof.
   - apply (reordered_document orc e root props bs bs' ms ms' rest rest' me me' m' Hl PC Hlex Hlex' P).
   - apply (reordered_document orc e root props bs' bs ms' ms rest' rest me' me m' Hl PC Hlex' Hlex (Permutation_sym P)).
 Qed.
+
+(* ---------------------------------------------------------------- explicit nulls *)
+(* a null member of a known property does nothing (below the nesting bound): documents that differ in
+   such members, anywhere among the members and in any order, decode alike *)
+Definition null_members (props : list property) (l : list (bytes * jvalue)) : Prop :=
+  Forall (fun kv => snd kv = JNull /\ exists p, find_prop props (fst kv) = Some p) l.
+
+Lemma orun_nulls_app orc e d props nulls ms m seen m' :
+  null_members props nulls -> (max_nesting_depth <? d + 1) = false ->
+  orun orc e d props ms m seen m' -> orun orc e d props (nulls ++ ms) m seen m'.
+Proof.
+  intros Hn Hd R. induction Hn as [|[k v] l [Hv [p Hp]] _ IH]; [exact R|]. cbn [fst snd] in *. subst v.
+  cbn [app]. econstructor; [|exact IH]. exists p, 1%nat. split; [exact Hp|].
+  cbn [snd]. unfold tr_member. rewrite Hd. reflexivity.
+Qed.
+
+Lemma orun_nulls_strip orc e d props nulls ms m seen m' :
+  null_members props nulls -> orun orc e d props (nulls ++ ms) m seen m' -> orun orc e d props ms m seen m'.
+Proof.
+  intros Hn. induction Hn as [|[k v] l [Hv _] _ IH]; intros R; [exact R|]. cbn [fst snd] in *. subst v.
+  cbn [app] in R. inversion R as [|kv r m0 s0 m1 s1 m0' (p & f & Ep & Em) Rr]; subst.
+  cbn [snd] in Em. apply tr_member_null in Em. destruct Em as [_ E]. injection E as E1 E2. subst m1 s1. exact (IH Rr).
+Qed.
+
+Theorem padded_object orc e d props ms ms' nulls m seen m' f :
+  props_commute e props -> null_members props nulls -> Permutation (nulls ++ ms) ms' ->
+  (max_nesting_depth <? d + 1) = false -> wf m ->
+  tr_object orc e f d props ms m seen = Ok m' -> exists f', tr_object orc e f' d props ms' m seen = Ok m'.
+Proof.
+  intros PC Hn P Hd W H. apply tr_object_of_orun.
+  apply (orun_perm orc e d props (nulls ++ ms) ms' PC P m seen seen m' W (seen_eq_refl seen)).
+  apply orun_nulls_app; [exact Hn|exact Hd|]. apply (orun_of_tr_object orc e d props f). exact H.
+Qed.
+
+Theorem unpadded_object orc e d props ms ms' nulls m seen m' f :
+  props_commute e props -> null_members props nulls -> Permutation (nulls ++ ms) ms' -> wf m ->
+  tr_object orc e f d props ms' m seen = Ok m' -> exists f', tr_object orc e f' d props ms m seen = Ok m'.
+Proof.
+  intros PC Hn P W H. apply tr_object_of_orun. apply (orun_nulls_strip orc e d props nulls ms m seen m' Hn).
+  apply (orun_perm orc e d props ms' (nulls ++ ms) PC (Permutation_sym P) m seen seen m' W (seen_eq_refl seen)).
+  apply (orun_of_tr_object orc e d props f). exact H.
+Qed.
+
+(* a settled run at some fuel is the run at the fuel decode_bytes uses *)
+Lemma settle_at orc e root bs' ms' rest' me' props m' f' :
+  lookup e root = Some (SObject props) -> lex bs' = (tokens_of (JObj ms') ++ rest', me') ->
+  tr_object orc e f' 0 props ms' [] [] = Ok m' -> decode_bytes orc e root bs' = Ok m'.
+Proof.
+  intros Hl Hlex' Hf'.
+  pose proof (decode_bytes_total orc e root bs') as [Hnp Hnf].
+  rewrite (decode_bytes_tree orc e root bs' (JObj ms') rest' me' Hlex') in *.
+  unfold tr_decode in *. rewrite Hl in *.
+  pose proof (tr_object_more_fuel orc e f' (S (jsize (JObj ms'))) 0 props ms' [] [] _ Hf' ltac:(discriminate)) as H1.
+  destruct (tr_object orc e (S (jsize (JObj ms'))) 0 props ms' [] []) as [x|c|s|] eqn:E; try congruence; try discriminate.
+  - pose proof (tr_object_more_fuel orc e (S (jsize (JObj ms'))) f' 0 props ms' [] [] _ E ltac:(discriminate)) as H2.
+    rewrite Nat.add_comm in H2. congruence.
+  - pose proof (tr_object_more_fuel orc e (S (jsize (JObj ms'))) f' 0 props ms' [] [] _ E ltac:(discriminate)) as H2.
+    rewrite Nat.add_comm in H2. congruence.
+Qed.
+
+(* documents: the root object's members in any order, with explicit nulls for any of its properties
+   added anywhere *)
+Theorem padded_document_iff orc e root props bs bs' ms ms' nulls rest rest' me me' :
+  lookup e root = Some (SObject props) -> props_commute e props ->
+  lex bs = (tokens_of (JObj ms) ++ rest, me) -> lex bs' = (tokens_of (JObj ms') ++ rest', me') ->
+  null_members props nulls -> Permutation (nulls ++ ms) ms' ->
+  forall m', decode_bytes orc e root bs = Ok m' <-> decode_bytes orc e root bs' = Ok m'.
+Proof.
+  intros Hl PC Hlex Hlex' Hn P m'. split; intros Hd.
+  - rewrite (decode_bytes_tree orc e root bs (JObj ms) rest me Hlex) in Hd. unfold tr_decode in Hd. rewrite Hl in Hd.
+    destruct (padded_object orc e 0 props ms ms' nulls [] [] m' _ PC Hn P ltac:(reflexivity) wf_nil Hd) as (f' & Hf').
+    exact (settle_at orc e root bs' ms' rest' me' props m' f' Hl Hlex' Hf').
+  - rewrite (decode_bytes_tree orc e root bs' (JObj ms') rest' me' Hlex') in Hd. unfold tr_decode in Hd. rewrite Hl in Hd.
+    destruct (unpadded_object orc e 0 props ms ms' nulls [] [] m' _ PC Hn P wf_nil Hd) as (f' & Hf').
+    exact (settle_at orc e root bs ms rest me props m' f' Hl Hlex Hf').
+Qed.
